@@ -167,3 +167,10 @@ Theorem C09_v2_released_chords_are_cleared : forall c layer c' dq',
                 dq' = dq ++ map release_event (filter is_released (cv_active c1)).
 Proof. exact released_chords_are_cleared. Qed.
 Print Assumptions C09_v2_released_chords_are_cleared.
+
+Theorem C09_v2_last_release_marks_the_chord_released : forall j a,
+  mem_n j (ac_keys a) = true -> (forall k, In k (ac_remaining a) -> k = j) ->
+  ac_remaining (release_in_ach j a) = [] /\
+  ac_status (release_in_ach j a) = match ac_status a with AUnread | AUnreadReleased => AUnreadReleased | _ => AReleased end.
+Proof. exact last_release_marks_the_chord_released. Qed.
+Print Assumptions C09_v2_last_release_marks_the_chord_released.
